@@ -111,6 +111,12 @@ fn gen_entries(t: &mut Tape, n: usize, diagonal_only: bool, max: usize, ctx: &mu
 }
 
 fn gen_side(t: &mut Tape, lower: bool) -> Side {
+    if t.p(40) {
+        // ordinary decimals (not dyadic): the value a reader holds is the double nearest to the text; every lower
+        // candidate is below every upper candidate
+        let text = if lower { *t.pick(&["0.1", "-0.7", "0.3", "-1000000.1", "-2.3"]) } else { *t.pick(&["0.7", "1000000.1", "2.3", "0.9", "1e1"]) };
+        return Side::Finite(V { text: text.to_string(), value: q(text.parse::<f64>().unwrap()) });
+    }
     match t.weighted(&[6, 2, 1]) {
         0 => {
             let mut v = dy(t, false);
@@ -306,6 +312,8 @@ struct W {
     trailing: bool,
     inject: QInject,
     k: usize,
+    /// fields of entry lines separated by a TAB instead of a blank
+    tabs: bool,
 }
 
 impl W {
@@ -340,12 +348,14 @@ impl W {
     fn entry(&mut self, id: &str, idx: &[usize], text: &str) {
         let t = if self.inject == QInject::Token(id.to_string()) { "12..5" } else { text };
         let mut s = String::new();
+        let sep = if self.tabs { "\t" } else { " " };
         for i in idx {
-            s.push_str(&format!("{} ", i + 1));
+            s.push_str(&format!("{}{sep}", i + 1));
         }
         s.push_str(t);
         if self.trailing && self.k % 2 == 0 {
-            s.push_str(" trailing text");
+            s.push_str(sep);
+            s.push_str("trailing text");
         }
         self.raw(&s);
         self.tokens.push((id.to_string(), self.line));
@@ -362,7 +372,7 @@ fn side_text(s: &Side, lower: bool, thr: f64) -> String {
 
 pub fn write_qplib(qp: &Qp, comments: bool, blanks: bool, trailing: bool, case_style: u8, inject: &QInject) -> Written {
     let thr: f64 = qp.threshold_text.parse().unwrap();
-    let mut w = W { out: String::new(), line: 0, tokens: vec![], comments, blanks, trailing, inject: inject.clone(), k: 0 };
+    let mut w = W { out: String::new(), line: 0, tokens: vec![], comments, blanks, trailing, inject: inject.clone(), k: 0, tabs: case_style & 16 != 0 };
     if comments {
         w.raw("! QPLIB test file");
     }
